@@ -1205,6 +1205,7 @@ func main() {
 		files[k].flush(sum, cfg.Out)
 	}
 
+	runPlannedStream(cfg, sum, rng.Fork())
 	runE2E(cfg, sum, rng.Fork())
 	sum.Write(cfg.Out)
 }
@@ -1259,11 +1260,13 @@ func xorCollision(in []CRow, f1, f2 string) bool {
 
 // ======================= end to end =======================
 type e2eEvent struct {
-	Id int
-	A  string
-	G  string
-	V  int
-	S  string
+	Id  int
+	A   string
+	G   string
+	V   int
+	S   string
+	Lat int    // value range differs from block to block
+	Opt string // "" = the event does not have the field
 }
 type e2eLayout struct {
 	Name        string
@@ -1360,7 +1363,11 @@ func workerMain(args []string) {
 	}
 	for i, e := range sc.Events {
 		fmt.Fprintf(&sb, "{\"index\":{\"_index\":\"c06\"}}\n")
-		fmt.Fprintf(&sb, "{\"timestamp\":%d,\"id\":%d,\"a\":%q,\"g\":%q,\"v\":%d,\"s\":%q}\n", e2eBase+uint64(e.Id)*1000, e.Id, e.A, e.G, e.V, e.S)
+		opt := ""
+		if e.Opt != "" {
+			opt = fmt.Sprintf(",\"opt\":%q", e.Opt)
+		}
+		fmt.Fprintf(&sb, "{\"timestamp\":%d,\"id\":%d,\"a\":%q,\"g\":%q,\"v\":%d,\"s\":%q,\"lat\":%d%s}\n", e2eBase+uint64(e.Id)*1000, e.Id, e.A, e.G, e.V, e.S, e.Lat, opt)
 		pending++
 		if sc.Layout.FlushEvery > 0 && pending >= sc.Layout.FlushEvery {
 			flush()
@@ -1485,6 +1492,12 @@ func e2eQueries() []e2eQuery {
 		{"* | eval w=v*2 | sort w, -id | head 5 | fields id, w", "parallel_sort", cmpOrdered, ""},
 		{"* | eval w=v*2 | top a", "parallel_top", cmpCounts, ""},
 		{"* | where v>=0 | rare g", "parallel_top", cmpCounts, ""},
+		// two-pass commands in front of an aggregation: must see the whole input however the
+		// blocks reach the chains
+		{"* | bin lat | stats count by lat", "twopass_bin", cmpMultiset, ""},
+		{"* | bin bins=3 lat | sort lat, id | fields id, lat", "twopass_bin", cmpOrdered, ""},
+		{"* | fields id, a, opt, v | fillnull value=0 | stats count by opt", "twopass_fillnull", cmpMultiset, ""},
+		{"* | fields id, opt | fillnull value=none | top opt", "twopass_fillnull", cmpCounts, ""},
 	}
 }
 
@@ -1513,7 +1526,11 @@ func runE2E(cfg vhlib.Config, sum *vhlib.Summary, r *vhlib.Rng) {
 			if d == 0 {
 				v = (7 * i) % 5
 			}
-			evs[i] = e2eEvent{Id: i, A: vhlib.Pick(r, []string{"x", "y", "z"}), G: g, V: v, S: fmt.Sprintf("k%d=w%d u%d", r.Intn(4), r.Intn(3), i)}
+			evs[i] = e2eEvent{Id: i, A: vhlib.Pick(r, []string{"x", "y", "z"}), G: g, V: v, S: fmt.Sprintf("k%d=w%d u%d", r.Intn(4), r.Intn(3), i),
+				Lat: 1000*((i/2)%4) + r.Intn(10)}
+			if (i/2)%4 == 1 {
+				evs[i].Opt = "q"
+			}
 		}
 		layouts := []e2eLayout{
 			{"one_block", 0, 0, 1},
